@@ -200,6 +200,10 @@ func tryGrid(r *gen.R) (*Truth, float64) {
 	if holes == 0 {
 		return nil, 0
 	}
+	if t.Origin == "grid" && r.Chance(0.12) {
+		t.Origin = "grid-edge"
+		t.TouchEdge(r)
+	}
 	return t, margin
 }
 
